@@ -1813,6 +1813,98 @@ def _path_deref(it, c, a):
     return a[0]
 
 
+@model('Path::parent')
+def _path_parent(it, c, a):
+    p_ = _pv(a[0])
+    if not p_.comps or p_.comps == ['ROOT']:
+        return none()
+    return some(RefV([PathV(p_.comps[:-1])], 0))
+
+
+@model('PathBuf::pop')
+def _path_pop(it, c, a):
+    p_ = _pv(a[0])
+    if not p_.comps or p_.comps == ['ROOT']:
+        return BoolV(False)
+    p_.comps.pop()
+    return BoolV(True)
+
+
+def _path_arg(v):
+    """a path-like argument: PathV, &str, OsStr"""
+    v = deref(v)
+    while isinstance(v, RefV):
+        v = v.get()
+    if isinstance(v, PathV):
+        return list(v.comps)
+    if isinstance(v, StrV):
+        parts = [x for x in v.s.split('/') if x != '']
+        return (['ROOT'] if v.s.startswith('/') else []) + [[IntV(b, 8, 0) for b in x.encode()] for x in parts]
+    if isinstance(v, (StrSym, StringV)):
+        return [list(v.b)]
+    raise Unsupported('path argument %r' % (v,))
+
+
+@model('Path::join', 'PathBuf::join')
+def _path_join(it, c, a):
+    p_ = _pv(a[0]); other = _path_arg(a[1])
+    if other and other[0] == 'ROOT':
+        return PathV(other)
+    return PathV(p_.comps + other)
+
+
+@model('PathBuf::push')
+def _path_push(it, c, a):
+    p_ = _pv(a[0]); other = _path_arg(a[1])
+    if other and other[0] == 'ROOT':
+        p_.comps[:] = other
+    else:
+        p_.comps.extend(other)
+    return UNIT
+
+
+@model('Path::ends_with')
+def _path_ends_with(it, c, a):
+    p_ = _pv(a[0]); other = _path_arg(a[1])
+    if len(other) > len(p_.comps):
+        return BoolV(False)
+    if not other:
+        return BoolV(True)
+    return BoolV(all(_comp_eq(it, x, y) for x, y in zip(other, p_.comps[len(p_.comps) - len(other):])))
+
+
+@model('<bool as Not>::not', '<&bool as Not>::not')
+def _bool_not(it, c, a):
+    v = deref(a[0])
+    if isinstance(v, LazyV):
+        v = v.as_bool()
+    return BoolV(not v.v) if not v.sym() else BoolV(z3.Not(v.v))
+
+
+@model('OsStr::new')
+def _osstr_new(it, c, a):
+    return a[0]
+
+
+@model('<Option as PartialEq>::eq', '<Option as PartialEq>::ne')
+def _option_eq(it, c, a):
+    x, y = deref(a[0]), deref(a[1])
+    if isinstance(x, LazyV) or isinstance(y, LazyV):
+        return NotImplemented
+    vx, px = shape(it, x, ['None', 'Some']); vy, py = shape(it, y, ['None', 'Some'])
+    if vx != vy:
+        r = False
+    elif vx == 'None':
+        r = True
+    else:
+        px, py = deref(px), deref(py)
+        if isinstance(px, (StrV, StrSym, StringV)) and isinstance(py, (StrV, StrSym, StringV)):
+            r = _osstr_eq(it, '::eq', [px, py]).v
+        else:
+            r = _key_eq(it, px, py)
+    return BoolV(r if c.endswith('eq') else not r)
+
+
 def _split_name(it, name):
     """std: file_stem / extension of a file name: (stem bytes, extension bytes or None)"""
     dots = [i for i, b in enumerate(name) if it.choose_bool(BoolV(b.z() == 0x2E) if b.sym() else BoolV(b.v == 0x2E))]
